@@ -335,3 +335,12 @@ Proof.
     simpl in G. apply andb_true_iff in G. destruct G as [G1 G2]. apply memb_In in G1. apply memb_In in G2.
     apply disconnect_refines; assumption.
 Qed.
+
+(* the list evaluated by the driver starts with agree (strengthened: the model may not decline
+   inside the domain) and holds_b *)
+Lemma check_spec : forall s o ob, exists rest,
+  check s o ob = (agree s o ob && negb (declined s o && in_domain s o)) :: holds_b s o ob :: rest.
+Proof.
+  intros s o ob. unfold check, agree, holds_b, declined.
+  destruct ob as [ho go|e]; destruct (in_domain s o); eexists; reflexivity.
+Qed.
